@@ -10,6 +10,9 @@
 (* cfg.idur[s]   : instance duration t_STATE                                             *)
 (* durations     : ticks (<= 0 means immediately) or NONEV / INFV / ABSENTV              *)
 (* cfg.init      : the initial state (initdef)                                           *)
+(* cfg.echain[s] : 0, or the event that the entry action of s sends to its own FSM when *)
+(*                 the causing event's data says so (chained transition: if accepted,   *)
+(*                 s is only an intermediate state and its timer is NOT started)         *)
 (* cfg.xbad[s]   : 1 = an on_exit event of s fails in a non-fatal way (unknown event     *)
 (*                 type at its destination): event() raises, nothing has changed         *)
 (*                                                                                       *)
@@ -48,9 +51,11 @@ Res(ret, st, tm) == [ret |-> ret, st |-> st, tm |-> tm]
 
 (* enter state s because of an event whose data item 'duration' is d; k entry actions   *)
 (* were already run while handling the current event                                     *)
-RECURSIVE Enter(_, _, _, _, _, _)
-Enter(cfg, s, d, now, inited, k) ==
+RECURSIVE Enter(_, _, _, _, _, _, _)
+Enter(cfg, s, d, now, inited, k, cflag) ==
     IF k >= 3 * cfg.n THEN Res("error", s, NoTimer)                   \* endless chain
+    ELSE IF cflag /\ cfg.echain[s] # 0 /\ Accepted(cfg, cfg.echain[s], s, inited)
+    THEN Enter(cfg, Target(cfg, cfg.echain[s], s), ABSENTV, now, inited, k + 1, FALSE)   \* no timer for s
     ELSE IF cfg.tev[s] = 0 THEN Res("true", s, NoTimer)
     ELSE LET dur == EffDur(cfg, s, d) IN
          IF dur \in {NONEV, ABSENTV} THEN Res("error", s, NoTimer)    \* no duration at all
@@ -58,16 +63,18 @@ Enter(cfg, s, d, now, inited, k) ==
          ELSE IF dur <= 0                                             \* immediately
               THEN IF ~IsGoto(cfg.tev[s]) /\ ~Known(cfg, cfg.tev[s]) THEN Res("error", s, NoTimer)
                    ELSE IF Accepted(cfg, cfg.tev[s], s, inited)
-                   THEN Enter(cfg, Target(cfg, cfg.tev[s], s), ABSENTV, now, inited, k + 1)
+                   THEN Enter(cfg, Target(cfg, cfg.tev[s], s), ABSENTV, now, inited, k + 1, FALSE)
                    ELSE Res("true", s, NoTimer)          \* rejected: in s without a timer
          ELSE Res("true", s, [due |-> now + dur, ev |-> cfg.tev[s]])
 
 (* one event() call; tm is the pending timer *)
-Handle(cfg, st, tm, ev, d, now, inited) ==
+HandleC(cfg, st, tm, ev, d, now, inited, cflag) ==
     IF ~IsGoto(ev) /\ ~Known(cfg, ev) THEN Res("unknown", st, tm)
     ELSE IF ~Accepted(cfg, ev, st, inited) THEN Res("false", st, tm)     \* nothing changes
     ELSE IF inited /\ cfg.xbad[st] = 1 THEN Res("unknown", st, tm)      \* exit failed: still in st, timer kept
-    ELSE Enter(cfg, Target(cfg, ev, st), d, now, inited, 0)            \* old timer cancelled
+    ELSE Enter(cfg, Target(cfg, ev, st), d, now, inited, 0, cflag)     \* old timer cancelled
+
+Handle(cfg, st, tm, ev, d, now, inited) == HandleC(cfg, st, tm, ev, d, now, inited, FALSE)
 
 (* the timer tm expires: its event is delivered without data; whatever happens, that    *)
 (* timer is gone                                                                         *)
@@ -83,10 +90,12 @@ World(st, hs, act, nid, ret) == [st |-> st, hs |-> hs, act |-> act, nid |-> nid,
 
 StopTimer(w) == World(w.st, {h \in w.hs : h.id # w.act}, 0, w.nid, w.ret)
 
-RECURSIVE IEnter(_, _, _, _, _, _, _)
-IEnter(cfg, w, s, d, now, inited, k) ==
+RECURSIVE IEnter(_, _, _, _, _, _, _, _)
+IEnter(cfg, w, s, d, now, inited, k, cflag) ==
     LET w1 == World(s, w.hs, w.act, w.nid, "true") IN
     IF k >= 3 * cfg.n THEN World(s, w.hs, w.act, w.nid, "error")
+    ELSE IF cflag /\ cfg.echain[s] # 0 /\ Accepted(cfg, cfg.echain[s], s, inited)
+    THEN IEnter(cfg, w1, Target(cfg, cfg.echain[s], s), ABSENTV, now, inited, k + 1, FALSE)
     ELSE IF cfg.tev[s] = 0 THEN w1
     ELSE LET dur == EffDur(cfg, s, d) IN
          IF dur \in {NONEV, ABSENTV} THEN World(s, w.hs, w.act, w.nid, "error")
@@ -94,16 +103,18 @@ IEnter(cfg, w, s, d, now, inited, k) ==
          ELSE IF dur <= 0
               THEN IF ~IsGoto(cfg.tev[s]) /\ ~Known(cfg, cfg.tev[s]) THEN World(s, w.hs, w.act, w.nid, "error")
                    ELSE IF Accepted(cfg, cfg.tev[s], s, inited)
-                   THEN IEnter(cfg, w1, Target(cfg, cfg.tev[s], s), ABSENTV, now, inited, k + 1)
+                   THEN IEnter(cfg, w1, Target(cfg, cfg.tev[s], s), ABSENTV, now, inited, k + 1, FALSE)
                    ELSE w1
          ELSE World(s, w.hs \cup {[id |-> w.nid, due |-> now + dur, ev |-> cfg.tev[s]]},
                     w.nid, w.nid + 1, "true")
 
-IHandle(cfg, w, ev, d, now, inited) ==
+IHandleC(cfg, w, ev, d, now, inited, cflag) ==
     IF ~IsGoto(ev) /\ ~Known(cfg, ev) THEN World(w.st, w.hs, w.act, w.nid, "unknown")
     ELSE IF ~Accepted(cfg, ev, w.st, inited) THEN World(w.st, w.hs, w.act, w.nid, "false")
     ELSE IF inited /\ cfg.xbad[w.st] = 1 THEN World(w.st, w.hs, w.act, w.nid, "unknown")
-    ELSE IEnter(cfg, IF CancelOnExit THEN StopTimer(w) ELSE w, Target(cfg, ev, w.st), d, now, inited, 0)
+    ELSE IEnter(cfg, IF CancelOnExit THEN StopTimer(w) ELSE w, Target(cfg, ev, w.st), d, now, inited, 0, cflag)
+
+IHandle(cfg, w, ev, d, now, inited) == IHandleC(cfg, w, ev, d, now, inited, FALSE)
 
 (* the loop runs handle h (removing it from its heap) *)
 IFire(cfg, w, h, now) ==
